@@ -183,7 +183,7 @@ def abstract_of(case):
         k = 1
         for r in s.residues:
             for a in r.atoms:
-                t.append(enumio.atom(k, a.name, r.name, r.chain, r.number, "%.3f" % a.x, "%.3f" % a.y, "%.3f" % a.z, element=a.name[0]))
+                t.append(enumio.atom(k, a.name, r.name, r.chain, r.number, "%.3f" % a.x, "%.3f" % a.y, "%.3f" % a.z, element=a.name[0], icode=r.icode))
                 k += 1
     for k, a in enumerate(t):
         a["serial"] = k + 1
